@@ -473,7 +473,7 @@ func main() {
 	runner.Main(runner.Check{
 		Property: "C08",
 		Level:    "exploration",
-		Rule: "differential monitor of drpcwire codec functions against the independent reference codec (refwire). Cases: (1) every frame in kind(64) x done x control x 13 boundary ids squared x 6 payload lengths, with every header prefix and 3 mutations of every header byte; (2) every byte string up to length 2 (quick) / 3 (thorough) and all strings of length 4-6 over a 7-byte alphabet; (3) varints: all 2^k, 2^k±1, over-long forms, seeded values; (4) SplitN over boundary sizes; (5) seeded frame-like strings with canonical, padded and over-long varints. A case is one (function, input) pair; batches partition the input space, so distinct_nontrivial is the number of inputs compared (inputs inside a seeded batch are drawn from a 64-bit PRNG stream, collisions negligible).",
+		Rule:     "differential monitor of drpcwire codec functions against the independent reference codec (refwire). Cases: (1) every frame in kind(64) x done x control x 13 boundary ids squared x 6 payload lengths, with every header prefix and 3 mutations of every header byte; (2) every byte string up to length 2 (quick) / 3 (thorough) and all strings of length 4-6 over a 7-byte alphabet; (3) varints: all 2^k, 2^k±1, over-long forms, seeded values; (4) SplitN over boundary sizes; (5) seeded frame-like strings with canonical, padded and over-long varints. A case is one (function, input) pair; batches partition the input space, so distinct_nontrivial is the number of inputs compared (inputs inside a seeded batch are drawn from a 64-bit PRNG stream, collisions negligible).",
 		Assumptions: []string{
 			"the reference codec refwire encodes the wire description correctly (it is 60 lines and cross-checked against released v0.0.17 in C18)",
 			"the silent truncation of the 10th varint group to 64 bits is specified behaviour (identical in v0.0.17)",
